@@ -23,7 +23,7 @@ SYNC_CALLS = {"cudaDeviceSynchronize", "cudaStreamSynchronize", "cudaEventSynchr
 ANNOTATION_CHOICES = ["", "ProfilerStep", "forward", "loss", "optimizer", "data_loading", "u_block_a", "u_block_b", "ProfilerStep#"]
 
 CP_OPTS = dict(steps=[0, 1, 2, 3, 3], w_launch=7, w_sync=3, w_op=4, w_rt=1, max_top=5, streams=3, second_thread=True,
-               event_sync=False, lead_op=False, ensure_kernel=False, kdurs=[1, 2, 4, 7, 12, 20, 30], first_op_children=True, annotation_weight=2, max_depth=4, cuda_events=True, align_ends=True, python_frames=True, fractional_stamps=True)
+               event_sync=False, lead_op=False, ensure_kernel=False, kdurs=[1, 2, 4, 7, 12, 20, 30], first_op_children=True, annotation_weight=2, max_depth=4, cuda_events=True, align_ends=True, python_frames=True, fractional_stamps=True, unrounded=True)
 
 
 class Window:
@@ -141,7 +141,7 @@ class CPRun:
         inst = p["instance"]
         self.inst = tuple(inst) if isinstance(inst, list) else inst
         self.window = Window(self.events, p["annotation"], inst)
-        self.min_ts = int(self.ta.t.min_ts)
+        self.min_ts = self.ta.t.min_ts if case.get("unrounded") else int(self.ta.t.min_ts)
         with env_flag("CRITICAL_PATH_ADD_ZERO_WEIGHT_LAUNCH_EDGE", p["zero_weight_launch_edges"]):
             res = hta_call("critical_path_analysis",
                            lambda: self.ta.critical_path_analysis(rank=self.rank, annotation=p["annotation"], instance_id=self.inst))
